@@ -152,20 +152,20 @@ Apply(c, d) ==
     [] d[1] = "fri.inner1.height" -> [c EXCEPT !.fri.inner[1].vec.height = d[2]]
     [] d[1] = "fri.inner2.height" -> [c EXCEPT !.fri.inner[2].vec.height = d[2]]
     [] d[1] = "fri.inner2.nvf" -> [c EXCEPT !.fri.inner[2].vec.nvf = d[2]]
-    [] d[1] = "fri.shiftAll" -> [c EXCEPT !.fri.logInput = @ + d[2], !.fri.logLast = @ + d[2],
-                                          !.fri.inner[1].vec.height = @ + d[2], !.fri.inner[2].vec.height = @ + d[2]]
+    [] d[1] = "fri.shiftAll" -> [c EXCEPT !.fri.logInput = FAdd(@, d[2]), !.fri.logLast = FAdd(@, d[2]),
+                                          !.fri.inner[1].vec.height = FAdd(@, d[2]), !.fri.inner[2].vec.height = FAdd(@, d[2])]
     [] d[1] = "fri.extraInner" -> [c EXCEPT !.fri.inner = Append(@, [ncols |-> 2, vec |-> Vec(3, 5)])]
     [] d[1] = "fri.extraStep" -> [c EXCEPT !.fri.steps = Append(@, 1)]
     [] d[1] = "fri.dropInnerRebalanced" -> [c EXCEPT !.fri.inner = SubSeq(@, 1, Len(@) - 1),
-                                                     !.fri.logLast = @ + c.fri.steps[Len(c.fri.steps)]]
+                                                     !.fri.logLast = FAdd(@, c.fri.steps[Len(c.fri.steps)] % P)]
     [] d[1] = "fri.addLayer" -> [c EXCEPT !.fri.nLayers = 4, !.fri.steps = <<0, 4, 3, 1>>, !.fri.logLast = 1,
                                           !.fri.inner = Append(@, [ncols |-> 2, vec |-> Vec(3, 5)])]
     [] d[1] = "cosetsWrap" -> LET e == FAdd(c.logTrace, d[2]) IN
                               [c EXCEPT !.logCosets = d[2], !.orig.vec.height = e, !.inter.vec.height = e, !.comp.vec.height = e,
                                         !.fri.logInput = e, !.fri.inner[1].vec.height = FSub(e, 4), !.fri.inner[2].vec.height = FSub(e, 7)]
-    [] d[1] = "traceShift" -> LET e == c.logTrace + d[2] + c.logCosets IN
-                              [c EXCEPT !.logTrace = @ + d[2], !.orig.vec.height = e, !.inter.vec.height = e, !.comp.vec.height = e,
-                                        !.fri.logInput = e, !.fri.inner[1].vec.height = e - 4, !.fri.inner[2].vec.height = e - 7]
+    [] d[1] = "traceShift" -> LET e == FAdd(FAdd(c.logTrace, d[2]), c.logCosets) IN
+                              [c EXCEPT !.logTrace = FAdd(@, d[2]), !.orig.vec.height = e, !.inter.vec.height = e, !.comp.vec.height = e,
+                                        !.fri.logInput = e, !.fri.inner[1].vec.height = FSub(e, 4), !.fri.inner[2].vec.height = FSub(e, 7)]
     [] d[1] = "hi.nQueries" -> [c EXCEPT !.nQueries = d[2]]
     [] d[1] = "hi.nLayers" -> [c EXCEPT !.fri.nLayers = d[2]]
     [] d[1] = "hi.ncols" -> [c EXCEPT !.orig.ncols = d[2]]
@@ -176,11 +176,11 @@ Apply(c, d) ==
     [] d[1] = "hi.logLast" -> LET e == d[2] + 9 IN
                               [c EXCEPT !.fri.logLast = d[2], !.logTrace = d[2] + 7, !.fri.logInput = e,
                                         !.orig.vec.height = e, !.inter.vec.height = e, !.comp.vec.height = e,
-                                        !.fri.inner[1].vec.height = e - 4, !.fri.inner[2].vec.height = e - 7]
+                                        !.fri.inner[1].vec.height = FSub(e, 4), !.fri.inner[2].vec.height = FSub(e, 7)]
     [] d[1] = "hi.logCosets" -> LET e == d[2] + 9 IN
                                 [c EXCEPT !.logCosets = d[2], !.fri.logInput = e,
                                           !.orig.vec.height = e, !.inter.vec.height = e, !.comp.vec.height = e,
-                                          !.fri.inner[1].vec.height = e - 4, !.fri.inner[2].vec.height = e - 7]
+                                          !.fri.inner[1].vec.height = FSub(e, 4), !.fri.inner[2].vec.height = FSub(e, 7)]
     [] d[1] = "fri.dropStep" -> [c EXCEPT !.fri.steps = SubSeq(@, 1, Len(@) - 1)]
     [] d[1] = "fri.dropInner" -> [c EXCEPT !.fri.inner = SubSeq(@, 1, Len(@) - 1)]
 
